@@ -1,8 +1,9 @@
-\* exhaustive: Gen and Enc on all quick grids, k = 1..3
+\* exhaustive: Gen/Enc with up to four boxes on the quick grids (the tool uses 1..3)
 SPECIFICATION Spec
 CONSTANTS
-  GRIDS <- TinyGrids
-  KMAX = 3
+  GRIDS <- QuickGrids
+  SGRIDS <- McSolveGrids
+  KMAX = 4
   DEN = 2
   OCCVALS = {0, 1, 2}
   FNUM = 100
@@ -18,4 +19,9 @@ INVARIANT GenIsDecl
 INVARIANT GenClosed
 INVARIANT EncSound
 INVARIANT EncComplete
+INVARIANT SolveMeetsProperty
+INVARIANT LoopOptimal
+INVARIANT LoopNoShapes
+PROPERTY BoundGrows
+PROPERTY StrictlyGrows
 CHECK_DEADLOCK FALSE
